@@ -15,6 +15,7 @@ namespace opensmt {
 mpq_ptr FastRational::mpqPool::alloc()
 {
     mpq_ptr r;
+    std::lock_guard<std::mutex> lock(mutex);
     if (!pool.empty()) {
         r = pool.top();
         pool.pop();
@@ -26,6 +27,7 @@ mpq_ptr FastRational::mpqPool::alloc()
 
 void FastRational::mpqPool::release(mpq_ptr ptr)
 {
+    std::lock_guard<std::mutex> lock(mutex);
     pool.push(ptr);
 }
 
